@@ -325,6 +325,11 @@ Section Loop.
     run (match retry with UseDefault => option_map effective (e_retry row) | Given r => r end)
         (match timeout with UseDefault => e_timeout row | Given t => t end)
         script.
+  (* the emitted pagers (sync and asyncio copies alike): every page request of a listing, the first one and each
+     follow-up the pager makes, is the wrapped method called with the SAME retry / timeout arguments the caller gave *)
+  Definition listing (row : emitted) (retry : arg (option retry_params)) (timeout : arg (option Q))
+             (page_scripts : list (list reply)) : list trace :=
+    map (call row retry timeout) page_scripts.
 End Loop.
 Arguments UseDefault {A}.
 Arguments Given {A} a.
